@@ -173,6 +173,145 @@ def _const(vals, rtol=1e-9):
 
 
 # ========================================================================================
+# provenance facet: how the distribution object was obtained
+# ========================================================================================
+# direct          constructed (and, for callable / None parameters, conditioned) directly
+# copy, deepcopy  copy.copy / copy.deepcopy of the direct object;  call: direct() - conditioning on nothing
+# joint1          JointDistribution(hyper-prior, x)(hyper=value): one fixed variable (the variable x depends on, or an
+#                 unrelated one when x is unconditional);  joint1/copy: a copy of that
+# joint2          JointDistribution(x, p, q)(p=.., q=..): two fixed variables at once;  joint2/a-b, joint2/b-a: stepwise
+# member          JointDistribution.get_density("x") after the joint was conditioned (then conditioned directly)
+# member/partial  get_density("x") of the joint with one of two variables fixed (then conditioned on the rest)
+_ORIGINS_FULL = ("copy", "deepcopy", "call", "joint1", "joint1/copy", "joint2", "joint2/a-b", "joint2/b-a", "member",
+                 "member/partial")
+_ORIGINS_LIGHT = ("copy", "joint1", "joint2", "joint2/b-a", "member")
+
+
+def _obtained(origin):
+    """Coarse class of an origin (named first in signatures; the route is named only if it discriminates)."""
+    return "joint" if origin.startswith("joint") else "member" if origin.startswith("member") else "copy"
+
+
+def _hyper(cuqi, name, value, k, j):
+    """An independent prior for a variable that is going to be fixed at ``value`` and the documented
+    log-density of that prior at ``value`` (explicit formula).  The family is chosen such that none of its own
+    parameters carries the variable's name."""
+    v = np.atleast_1d(np.asarray(value, dtype=float)).ravel()
+    n = v.size
+    D = cuqi.distribution
+    cands = []
+    if np.all(v > 0):
+        a, b = np.full(n, 2.5 + 0.5 * k + j), np.full(n, 0.75)
+        cands.append((("shape", "rate"), lambda: D.Gamma(shape=a, rate=b, name=name),
+                      lambda: _ref_logpdf("Gamma", {"shape": a, "rate": b}, v)))
+    m, s = np.full(n, 0.25 - 0.5 * j), np.full(n, 1.5 + 0.25 * k)
+    cands.append((("mean", "std"), lambda: D.Normal(mean=m, std=s, name=name),
+                  lambda: _ref_logpdf("Normal", {"mean": m, "std": s}, v)))
+    cands.append((("location", "scale"), lambda: D.Laplace(location=m, scale=float(s[0]), name=name),
+                  lambda: _ref_logpdf("Laplace", {"location": m, "scale": s}, v)))
+    for names, make, ref in cands:
+        if name not in names:
+            h = make()
+            if h.dim != n:
+                raise ValueError("hyper-prior of dimension %r for a value of size %d" % (h.dim, n))
+            return h, float(ref())
+    raise ValueError(name)
+
+
+def _provenances(cuqi, res, d0, d, cond, k, wanted, dim):
+    """Generator of (origin, object, documented logd - logpdf or None) for the distribution ``d`` (= ``d0``
+    conditioned on ``cond``; d0 carries the name x).  The objects are produced one after the other on the SAME
+    live base object d0, the joint's own member last.  A route the library refuses is skipped (counted)."""
+    import copy as _copy
+    D = cuqi.distribution
+
+    def attempt(label, make):
+        res.transitions += 1
+        try:
+            obj = make()
+            if isinstance(obj, D.JointDistribution) or not all(hasattr(obj, a) for a in ("logpdf", "logd", "pdf")):
+                raise TypeError("not a single distribution: %s" % type(obj).__name__)
+            if obj.dim != dim:
+                raise TypeError("dimension %r" % (obj.dim,))
+        except Exception as e:
+            res.refused += 1
+            res.outcomes.add("origin-refused:%s:%s" % (label, type(e).__name__))
+            return None
+        return obj
+
+    for label, make in (("copy", lambda: _copy.copy(d)), ("deepcopy", lambda: _copy.deepcopy(d)), ("call", lambda: d())):
+        if label in wanted:
+            obj = attempt(label, make)
+            if obj is not None:
+                yield label, obj, None
+    free = [("h_free", 0.75 if k != 1 else 2), ("q_free", np.array([0.5, -1.25 + k]))]
+    own = list(cond.items())
+    fixed1 = own if len(own) == 1 else ([free[0]] if not own else None)
+    fixed2 = own if len(own) == 2 else (own + [free[1]] if len(own) == 1 else free)
+    joints = {}
+
+    def joint(fixed, xfirst):
+        """(joint distribution, sum of the documented log-densities of the fixed variables)"""
+        key = tuple(n for n, _ in fixed)
+        if key not in joints:
+            hs, off = [], 0.0
+            for j, (n, v) in enumerate(fixed):
+                h, r = _hyper(cuqi, n, v, k, j)
+                hs.append(h)
+                off += r
+            joints[key] = (D.JointDistribution(*([d0] + hs if xfirst else hs + [d0])), off)
+        return joints[key]
+    J = None
+    if fixed1 is not None and ("joint1" in wanted or "joint1/copy" in wanted):
+        off = [None]
+
+        def make1():
+            J1, off[0] = joint(fixed1, False)
+            return J1(**dict(fixed1))
+        g = attempt("joint1", make1)
+        if g is not None:
+            J = joints[tuple(n for n, _ in fixed1)][0]
+            if "joint1" in wanted:
+                yield "joint1", g, off[0]
+            if "joint1/copy" in wanted:
+                c = attempt("joint1/copy", lambda: _copy.copy(g))
+                if c is not None:
+                    yield "joint1/copy", c, off[0]
+    (na, va), (nb, vb) = fixed2
+    routes = (("joint2", lambda J2: J2(**dict(fixed2))), ("joint2/a-b", lambda J2: J2(**{na: va})(**{nb: vb})),
+              ("joint2/b-a", lambda J2: J2(**{nb: vb})(**{na: va})))
+    for label, route in routes:
+        if label not in wanted and not (label == "joint2" and fixed1 is None and "joint1" in wanted):
+            continue
+        off = [None]
+
+        def make2(route=route):
+            J2, off[0] = joint(fixed2, True)
+            return route(J2)
+        g = attempt(label, make2)
+        if g is not None:
+            J = joints[tuple(n for n, _ in fixed2)][0]
+            yield label, g, off[0]
+    if "member/partial" in wanted and tuple(n for n, _ in fixed2) in joints:
+        J2 = joints[tuple(n for n, _ in fixed2)][0]
+
+        def makep():
+            m = J2(**{nb: vb}).get_density("x")
+            rest = {n: v for n, v in cond.items() if n in m.get_conditioning_variables()}
+            return m(**rest) if rest else m
+        obj = attempt("member/partial", makep)
+        if obj is not None:
+            yield "member/partial", obj, None
+    if "member" in wanted and J is not None:
+        def makem():
+            m = J.get_density("x")
+            return m(**cond) if cond else m
+        obj = attempt("member", makem)
+        if obj is not None:
+            yield "member", obj, None
+
+
+# ========================================================================================
 # cells
 # ========================================================================================
 G_PARAMS = ["cov", "prec", "sqrtcov", "sqrtprec"]
@@ -211,7 +350,8 @@ def cells(tier, seed):
                     continue
                 for param in G_PARAMS:
                     yield {"kind": "gauss", "target": target, "param": param, "dim": dim, "cat": k,
-                           "full_basis": bool(thorough or dim <= 3), "ngeneric": 4 if thorough else 2}
+                           "full_basis": bool(thorough or dim <= 3), "ngeneric": 4 if thorough else 2,
+                           "origins": bool(thorough or dim <= 3)}
         for e in G_SCALES:
             for dim in (G_SCALE_DIMS_THOROUGH if thorough else G_SCALE_DIMS):
                 for target in ("iso", "diag", "full", "band"):
@@ -224,7 +364,8 @@ def cells(tier, seed):
         for dim in (G_INT_DIMS_THOROUGH if thorough else G_INT_DIMS):
             for param in G_PARAMS:
                 yield {"kind": "gauss", "target": "int", "param": param, "dim": dim, "cat": k,
-                       "means": "all" if thorough else "reduced", "full_basis": bool(dim <= 4), "ngeneric": 2}
+                       "means": "all" if thorough else "reduced", "full_basis": bool(dim <= 4), "ngeneric": 2,
+                       "origins": bool(dim <= 4)}
         for fam in FAMILIES:
             for ps in range(len(_PSETS[fam])):
                 yield {"kind": "fam", "family": fam, "pset": ps, "cat": k}
@@ -474,7 +615,7 @@ def _eval_gauss(cell, res):
                             skey = ""
                         for passing in passings:
                             for mkind, mrep, marg, mref in mean_forms:
-                                fac = {"data": label, "path": path, "pass": passing, "mean": mkind, "factor": factor}
+                                fac = {"obtained": "direct", "origin": "direct", "data": label, "path": path, "pass": passing, "mean": mkind, "factor": factor}
                                 if isint:
                                     fac["rep"], fac["meanrep"] = rep, mrep
                                 _gauss_config(cuqi, res, tally, cell, fac, shape, data, marg, mref, Sigma, skey, ctx)
@@ -521,8 +662,7 @@ def _gauss_config(cuqi, res, tally, cell, fac, shape, data, marg, mref, Sigma, s
         kwargs["mean"] = marg
     if not implied or cond:
         kwargs["geometry"] = dim
-    if cond:
-        kwargs["name"] = "x"
+    kwargs["name"] = "x"
     res.state("/".join(str(fac[x]) for x in ("data", "path", "factor", "pass", "mean", "rep", "meanrep") if x in fac))
     res.transitions += 1
     try:
@@ -639,6 +779,69 @@ def _gauss_config(cuqi, res, tally, cell, fac, shape, data, marg, mref, Sigma, s
             tally.ok("normalisation", fac)
         else:
             tally.fail("normalisation", fac, "density integrates to %r" % total)
+    if cell.get("origins") and (passing, mkind) in _G_ORIGIN_CONFIGS and fac.get("rep") != "float":
+        _gauss_origins(cuqi, res, tally, cell, fac, g0, g, cond, pts, refv, mref, Sigma, skey, ctx)
+
+
+# provenance facet of the Gaussian: unconditional / one / two conditioning variables (scale factor s, mean mu)
+_G_ORIGIN_CONFIGS = (("array", "vector"), ("callable", "vector"), ("callable", "callable"))
+
+
+def _gauss_origins(cuqi, res, tally, cell, fac, g0, g, cond, pts, refv, mref, Sigma, skey, ctx):
+    """The same N(mean, Sigma) obtained as a copy / by reducing a joint distribution with one or two fixed
+    variables (at once, stepwise) / as the joint's member: logpdf, logd, pdf at every point of the cell, cdf (dim<=2),
+    in 1-D the integral of pdf for the object reduced from the joint with one fixed variable."""
+    dim, k = cell["dim"], cell["cat"]
+    for origin, obj, offset in _provenances(cuqi, res, g0, g, cond, k, _ORIGINS_LIGHT, dim):
+        f2 = dict(fac, obtained=_obtained(origin), origin=origin)
+        res.state("/".join(str(f2[x]) for x in ("data", "path", "factor", "pass", "mean", "rep", "meanrep", "origin") if x in f2))
+        lp, ld, pv = [], [], []
+        for x in pts:
+            for out, f in ((lp, obj.logpdf), (ld, obj.logd), (pv, obj.pdf)):
+                st, v = _call(res, f, x)
+                out.append(v if st == "ok" else np.nan)
+        lp, ld, pv = np.array(lp), np.array(ld), np.array(pv)
+        res.outcomes.add("origin=%s:offset=%s" % (origin, "none" if offset is None else "nonzero" if abs(offset) > 1e-6 else "zero"))
+        if not close(lp, refv, 1e-9):
+            j = int(np.argmax(np.abs(np.where(np.isfinite(lp), lp, 1e300) - refv)))
+            tally.fail("logpdf", f2, "Gaussian given by %s: logpdf = %r, documented normalised density gives %r" %
+                       (cell["param"], lp[j], refv[j]), x=pts[j], impl=lp[j], ref=refv[j])
+            continue
+        tally.ok("logpdf", f2)
+        if np.all(np.isfinite(ld)) and _const(ld - lp):
+            tally.ok("logd-constant", f2)
+        else:
+            tally.fail("logd-constant", f2, "logd - logpdf is not constant over the points", diff=ld - lp)
+        if offset is not None:
+            if np.all(np.isfinite(ld)) and close(ld, lp + offset, 1e-9):
+                tally.ok("logd-offset", f2)
+            else:
+                tally.fail("logd-offset", f2, "logd - logpdf = %r for a distribution obtained by fixing the other variables of a joint "
+                           "distribution; the documented log-densities of the fixed variables sum to %r" % ((ld - lp)[0], offset))
+        ex = np.array([_safe_exp(r) for r in refv])
+        pdf_good = close(pv, ex, 1e-9, atol=1e-9 * max(float(np.max(ex)), 1e-300))
+        if pdf_good:
+            tally.ok("pdf", f2)
+        else:
+            j = int(np.argmax(np.abs(np.where(np.isfinite(pv), pv, 1e300) - ex)))
+            tally.fail("pdf", f2, "pdf %r != exp(reference log-density) %r" % (pv[j], ex[j]), x=pts[j])
+        if dim <= 2:
+            _gauss_cdf(res, tally, f2, obj, mref, Sigma, k, ctx["c"], ctx["ref"], (fac["mean"], skey))
+        qkey = ("pdf", fac["data"], fac["path"], fac["pass"], fac["mean"])
+        if dim == 1 and origin == "joint1" and pdf_good and qkey not in ctx["quad"]:
+            ctx["quad"].add(qkey)
+            s = math.sqrt(Sigma[0, 0])
+            try:
+                total, err, n = _quad_total(lambda t: _val(obj.pdf(np.array([t]))), -INF, INF, [mref[0] - s, mref[0], mref[0] + s])
+            except Exception as e:
+                res.refused += 1
+                res.outcomes.add("pdf-quad-refused:%s" % type(e).__name__)
+                continue
+            res.transitions += n
+            if abs(total - 1.0) <= 1e-7 + 10 * err:
+                tally.ok("pdf-normalisation", f2)
+            else:
+                tally.fail("pdf-normalisation", f2, "pdf integrates to %r" % total)
 
 
 def _gauss_cdf(res, tally, fac, g, mean, Sigma, k, c, cache, ckey):
@@ -953,7 +1156,8 @@ def _eval_family(cell, res):
                     cuqi.config.MIN_DIM_SPARSE = minval
                 try:
                     for rep in (["float", "int"] if ps == "int" else [None]):
-                        fac = dict(shapes)
+                        fac = {"obtained": "direct", "origin": "direct"}
+                        fac.update(shapes)
                         fac.update({"dim": "one" if dim == 1 else "multi", "pass": passing, "geometry": gkind})
                         if fam == "Lognormal":
                             fac["path"] = path
@@ -1029,26 +1233,26 @@ def _family_config(cuqi, cls, res, tally, cell, fam, fac, shapes, dim, dl, sc, v
         return
     inside, outside = _fam_points(fam, eff, dim)
     R = {"inside": inside, "outside": outside, "cache": {}, "eff": eff, "Sigma": Sigma, "dim": dim, "tag": tag}
-    if not _family_observe(res, tally, cell, fam, dict(fac, origin="direct"), d0, d, cond, R, None):
+    if not _family_observe(res, tally, cell, fam, fac, d0, d, cond, R, None):
         return
     # provenance facet: the same distribution obtained on the other documented routes (copies, reduction of a
     # joint distribution with 1 / 2 fixed variables at once and stepwise, member of a joint) - same observables
     for origin, obj, offset in _provenances(cuqi, res, d0, d, cond, k, _ORIGINS_FULL, dim):
         res.state(tag + "/" + fac.get("path", "") + "/" + origin)
-        _family_observe(res, tally, cell, fam, dict(fac, origin=origin), None, obj, {}, R, offset)
+        _family_observe(res, tally, cell, fam, dict(fac, obtained=_obtained(origin), origin=origin), None, obj, {}, R, offset)
 
 
 def _family_observe(res, tally, cell, fam, fac, d0, d, cond, R, offset):
     """Compares the whole observable set of the object ``d`` with the documented density.  origin == direct: the
-    complete point alphabet and input representations; other origins: 3 inside points + all outside points (the
-    reference values are shared).  offset: documented value of logd - logpdf (None: only constancy is demanded).
+    complete point alphabet and input representations; other origins: 2 generic inside points + 2 outside points
+    (the reference values are shared).  offset: documented value of logd - logpdf (None: only constancy is demanded).
     Returns False where the object could not be evaluated at all."""
     eff, Sigma, dim, tag, cache = R["eff"], R["Sigma"], R["dim"], R["tag"], R["cache"]
     origin = fac["origin"]
     direct = origin == "direct"
     passing = fac["pass"]
-    inside = R["inside"] if direct else R["inside"][:3]
-    outside = R["outside"]
+    inside = R["inside"] if direct else R["inside"][:2]
+    outside = R["outside"] if direct else R["outside"][:2]
 
     def ref(x):
         key = ("lp", np.asarray(x, float).tobytes())
@@ -1152,6 +1356,7 @@ def _family_observe(res, tally, cell, fam, fac, d0, d, cond, R, offset):
             tally.ok("pdf", fac)
         elif bad != "skip":
             tally.fail("pdf", fac, bad)
+        pdf_good = bad is None
         alts = [("x-list", inside[1].tolist())] if direct else []
         if dim == 1 and direct:
             alts += [("x-float", float(inside[1][0]))]
@@ -1208,14 +1413,14 @@ def _family_observe(res, tally, cell, fam, fac, d0, d, cond, R, offset):
                 else:
                     tally.fail("cdf-outside", f2, "cdf(%s) = %r with a coordinate %s the support; integral of the density = %r" %
                                (x.tolist(), v, side, r))
-    # 1-D: quadrature (other origins: the objects obtained by reducing a joint distribution at once)
+    # 1-D: quadrature (other origins: the object obtained by reducing a joint distribution with one fixed variable)
     if good and dim == 1 and passing in ("plain", "callable") and not upto_const and fam != "SmoothedLaplace" \
-            and (direct or origin in ("joint1", "joint2")):
-        _family_quadrature(res, tally, fac, d, fam, eff, light=not direct)
+            and (direct or origin == "joint1"):
+        _family_quadrature(res, tally, fac, d, fam, eff, light=not direct, with_pdf=pdf_good)
     return True
 
 
-def _family_quadrature(res, tally, fac, d, fam, eff, light=False):
+def _family_quadrature(res, tally, fac, d, fam, eff, light=False, with_pdf=True):
     lo, hi, ctr, sc = _support(fam, eff, 1)
     lo, hi, ctr, sc = float(lo[0]), float(hi[0]), float(ctr[0]), float(sc[0])
     if np.isfinite(lo) and np.isfinite(hi):
@@ -1230,18 +1435,19 @@ def _family_quadrature(res, tally, fac, d, fam, eff, light=False):
     # integrate over the support only; the vanishing outside is decided by the support clause
     a = lo + 1e-300 if lo == 0 else (np.nextafter(lo, INF) if np.isfinite(lo) else lo)
     b = np.nextafter(hi, -INF) if np.isfinite(hi) else hi
-    # the density the object itself reports (pdf) integrates to one
-    try:
-        total, err, n = _quad_total(lambda t: _val(d.pdf(np.array([t]))), a, b, grid)
-    except Exception as e:
-        res.refused += 1
-        res.outcomes.add("%s:pdf-quad-refused:%s" % (fam, type(e).__name__))
-    else:
-        res.transitions += n
-        if abs(total - 1.0) <= 1e-7 + 10 * err:
-            tally.ok("pdf-normalisation", fac)
+    # the density the object itself reports (pdf) integrates to one (examined where pdf is right pointwise)
+    if with_pdf:
+        try:
+            total, err, n = _quad_total(lambda t: _val(d.pdf(np.array([t]))), a, b, grid)
+        except Exception as e:
+            res.refused += 1
+            res.outcomes.add("%s:pdf-quad-refused:%s" % (fam, type(e).__name__))
         else:
-            tally.fail("pdf-normalisation", fac, "pdf integrates to %r over the support (quadrature error %.1e)" % (total, err))
+            res.transitions += n
+            if abs(total - 1.0) <= 1e-7 + 10 * err:
+                tally.ok("pdf-normalisation", fac)
+            else:
+                tally.fail("pdf-normalisation", fac, "pdf integrates to %r over the support (quadrature error %.1e)" % (total, err))
     if light:
         return
     try:
@@ -1326,7 +1532,7 @@ def _eval_mrf(cell, res):
                 for hform in hyp_forms:
                     hyper = hyper_i if hform.startswith("int") else hyper_f
                     rf = rfs[float(hyper)]
-                    fac = {"bc": bc, "order": str(order), "loc": lkind, "hyper": hform, "geometry": gname}
+                    fac = {"obtained": "direct", "origin": "direct", "bc": bc, "order": str(order), "loc": lkind, "hyper": hform, "geometry": gname}
                     kwargs = {"bc_type": bc, "geometry": geom if geom is not None else cuqi.geometry.Image2D((N, N))}
                     if fam == "GMRF":
                         kwargs["order"] = order
@@ -1345,8 +1551,7 @@ def _eval_mrf(cell, res):
                     else:
                         kwargs[hypname] = (lambda d: d)
                         cond["d"] = hyper
-                    if cond:
-                        kwargs["name"] = "x"
+                    kwargs["name"] = "x"
                     res.state("%s/%d/%s/%s/%s" % (bc, order, gname, lkind, hform))
                     res.transitions += 1
                     try:
@@ -1356,11 +1561,23 @@ def _eval_mrf(cell, res):
                         res.refused += 1
                         res.outcomes.add("%s:construct-refused:%s:%s" % (fam, bc, type(e).__name__))
                         continue
-                    _mrf_config(res, tally, fac, fam, m0, m, cond, pts, rf, tol, locname)
+                    good = _mrf_config(res, tally, fac, fam, m0, m, cond, pts, rf, tol, locname)
+                    if good and (lkind, hform) in _MRF_ORIGIN_CONFIGS:
+                        # provenance facet: unconditional / hyper-parameter fixed in a joint / location and hyper-parameter
+                        for origin, obj, offset in _provenances(cuqi, res, m0, m, cond, k, _ORIGINS_LIGHT, dim):
+                            res.state("%s/%d/%s/%s/%s/%s" % (bc, order, gname, lkind, hform, origin))
+                            res.outcomes.add("%s:origin=%s:offset=%s" % (fam, origin, "none" if offset is None else "nonzero" if abs(offset) > 1e-6 else "zero"))
+                            _mrf_config(res, tally, dict(fac, obtained=_obtained(origin), origin=origin), fam, None, obj, {}, pts, rf, tol, locname, offset)
     tally.flush()
 
 
-def _mrf_config(res, tally, fac, fam, m0, m, cond, pts, rf, tol, locname):
+_MRF_ORIGIN_CONFIGS = (("vector", "float"), ("vector", "callable"), ("callable", "callable"))
+
+
+def _mrf_config(res, tally, fac, fam, m0, m, cond, pts, rf, tol, locname, offset=None):
+    """offset: documented logd - logpdf of an object obtained by reducing a joint distribution (None: constancy only).
+    Returns True when logpdf could be evaluated and equals the reference."""
+    direct = fac["origin"] == "direct"
     lp, ld = [], []
     for x in pts:
         st, v = _call(res, m.logpdf, x)
@@ -1370,31 +1587,43 @@ def _mrf_config(res, tally, fac, fam, m0, m, cond, pts, rf, tol, locname):
             else:
                 res.refused += 1
                 res.outcomes.add("%s:logpdf-refused:%s" % (fam, type(v).__name__))
-            return
+            return False
         lp.append(v)
         st, v = _call(res, m.logd, x)
         ld.append(v if st == "ok" else np.nan)
     lp, ld = np.array(lp), np.array(ld)
-    res.outcomes.add("%s:%s:%s:%.9g" % (fam, fac["bc"], fac["order"], lp[-1]))
+    if direct:
+        res.outcomes.add("%s:%s:%s:%.9g" % (fam, fac["bc"], fac["order"], lp[-1]))
     if np.all(np.isfinite(ld)):
         if _const(ld - lp):
             tally.ok("logd-constant", fac)
         else:
             tally.fail("logd-constant", fac, "logd - logpdf is not constant over the points")
+        if offset is not None:
+            if close(ld, lp + offset, 1e-9):
+                tally.ok("logd-offset", fac)
+            else:
+                tally.fail("logd-offset", fac, "logd - logpdf = %r for a distribution obtained by fixing the other variables of a joint "
+                           "distribution; the documented log-densities of the fixed variables sum to %r" % ((ld - lp)[0], offset))
+    elif offset is not None:
+        tally.fail("logd-offset", fac, "logd of a distribution obtained by fixing the other variables of a joint distribution is "
+                   "not a finite number where logpdf is: %r" % ld[:3].tolist())
     if close(lp, rf, tol):
         tally.ok("logpdf", fac)
     else:
         j = int(np.argmax(np.abs(np.where(np.isfinite(lp), lp, 1e300) - rf)))
         tally.fail("logpdf", fac, "%s.logpdf = %r, documented density of the differences of x-%s gives %r" %
                    (fam, lp[j], locname, rf[j]), x=pts[j], impl=lp[j], ref=rf[j])
-        return
-    st, v = _call(res, m.pdf, pts[-1])
-    if st == "ok":
-        e = math.exp(rf[-1])
-        if close(v, e, tol, atol=tol * max(e, 1e-300)):
-            tally.ok("pdf", fac)
-        else:
-            tally.fail("pdf", fac, "pdf %r != exp(documented log-density) %r" % (v, e))
+        return False
+    for x, r in ([(pts[-1], rf[-1])] if direct else list(zip(pts, rf))[-3:]):
+        st, v = _call(res, m.pdf, x)
+        if st == "ok":
+            e = _safe_exp(r)
+            if close(v, e, tol, atol=tol * max(e, 1e-300)):
+                tally.ok("pdf", fac)
+            else:
+                tally.fail("pdf", fac, "pdf %r != exp(documented log-density) %r" % (v, e))
+                break
     if cond:
         st, v = _call(res, m0.logd, **dict(cond, x=pts[-1]))
         if st == "ok":
@@ -1402,6 +1631,7 @@ def _mrf_config(res, tally, fac, fam, m0, m, cond, pts, rf, tol, locname):
                 tally.ok("logd-conditional", fac)
             else:
                 tally.fail("logd-conditional", fac, "logd(cond. variables, x) = %r, conditioned distribution gives %r" % (v, ld[-1]))
+    return True
 
 
 # ========================================================================================
